@@ -122,7 +122,14 @@ func (r *BindRequestReconciler) Reconcile(ctx context.Context, req ctrl.Request)
 		}
 
 		if finalError != nil {
-			err = finalError
+			if err == nil {
+				// The request is terminally failed and its status already says so: as for any other
+				// bind error in that state there is nothing left to retry, so do not re-queue it.
+				logger.Error(finalError, "Recovered from a panic while reconciling a terminally failed BindRequest",
+					"Namespace", bindRequest.Namespace, "Name", bindRequest.Name)
+			} else {
+				err = finalError
+			}
 		}
 	}()
 
